@@ -100,6 +100,13 @@ def rid(name: str) -> str:
 
 
 _ZSTD = shutil.which("zstd")
+try:  # the module xopen itself uses (Python >= 3.14: compression.zstd, else the backport)
+    from compression import zstd as _zstd_mod  # type: ignore
+except ImportError:
+    try:
+        from backports import zstd as _zstd_mod  # type: ignore
+    except ImportError:
+        _zstd_mod = None
 
 
 def compress(data: bytes, kind: str, members: int = 1) -> bytes:
@@ -123,8 +130,10 @@ def compress(data: bytes, kind: str, members: int = 1) -> bytes:
     if kind == "xz":
         return lzma.compress(data, preset=0)
     if kind == "zst":
+        if _zstd_mod is not None:
+            return _zstd_mod.compress(data)
         if _ZSTD is None:
-            raise RuntimeError("zstd binary not available")
+            raise RuntimeError("no zstd module or binary available")
         return subprocess.run([_ZSTD, "-q", "-1", "-c"], input=data, capture_output=True, check=True).stdout
     raise ValueError(kind)
 
@@ -139,6 +148,10 @@ def decompress_file(path: str) -> bytes:
     if data[:6] == b"\xfd7zXZ\x00":
         return lzma.decompress(data)
     if data[:4] == b"\x28\xb5\x2f\xfd":
+        if _zstd_mod is not None:
+            return _zstd_mod.decompress(data)
+        if _ZSTD is None:
+            raise RuntimeError("no zstd module or binary available")
         return subprocess.run([_ZSTD, "-q", "-d", "-c"], input=data, capture_output=True, check=True).stdout
     return data
 
